@@ -57,6 +57,17 @@ structure Env where
   hasCtx : Bool := true
   hasBinds : Bool := true
   compileMode : Bool := false   -- `BindContext::for_compile()`: no has/coalesce
+  trackUnres : Bool := false    -- the interpreter whose `met_unresolved_name()` is read (`check_for_const`)
+
+/-- The reserved log entry that stands for `Interpreter::unresolved` (the shared flag "this run met a name
+    it could not resolve").  No function can have this name (the lexer produces no identifier with a NUL). -/
+def unresMarker : LogEntry := { name := "\x00unresolved".toList, this := .null, args := [] }
+
+/-- Is this log entry the reserved marker (decided by the name alone). -/
+def LogEntry.isMarker (e : LogEntry) : Bool := e.name == unresMarker.name
+
+/-- `met_unresolved_name()` read off a log. -/
+def Log.metUnres (l : Log) : Bool := l.any LogEntry.isMarker
 
 def lookup {α} (l : List (Str × α)) (k : Str) : Option α :=
   match l with
@@ -65,6 +76,23 @@ def lookup {α} (l : List (Str × α)) (k : Str) : Option α :=
 
 /-- `bind_param`: later bindings replace earlier ones. -/
 def Env.bind (e : Env) (k : Str) (v : Val) : Env := { e with params := (k, v) :: e.params }
+
+/-- `self.unresolved.set(true)`: the interpreter's shared flag "this run met a name it could not resolve",
+    recorded as the reserved entry at the end of the log (the log is threaded through every nested run —
+    program references, arguments, macro bodies — exactly like the shared `Rc<Cell<bool>>`; the fresh
+    interpreter of `eval_ident` has its own flag, and its own environment here).  Only `check_for_const`
+    reads the flag, so only its interpreter records it (`trackUnres`, kept by `Env.bind`): in every other
+    environment the log is the list of calls of bound functions and nothing else. -/
+def markUnres (env : Env) (log : Log) : Log := if env.trackUnres then log ++ [unresMarker] else log
+
+@[simp] theorem markUnres_untracked {env : Env} (h : env.trackUnres = false) (l : Log) : markUnres env l = l := by
+  simp [markUnres, h]
+
+@[simp] theorem markUnres_tracked {env : Env} (h : env.trackUnres = true) (l : Log) :
+    markUnres env l = l ++ [unresMarker] := by
+  simp [markUnres, h]
+
+@[simp] theorem Env.bind_trackUnres (e : Env) (k : Str) (v : Val) : (e.bind k v).trackUnres = e.trackUnres := rfl
 
 /-- `load_default_types`. -/
 def typeTable : List (String × String) :=
@@ -128,7 +156,7 @@ section
 variable (B : Builtins) (rec : Rec)
 
 /-- `InterpStack::pop`: identifiers resolve to a type, a parameter, another program (run now), else a
-    Binding error *value*. -/
+    Binding error *value* (and the interpreter's `unresolved` flag is set). -/
 def popS (env : Env) (s : St) : R SVal :=
   match s.stack with
   | [] => .fail .underflow s.log
@@ -145,7 +173,7 @@ def popS (env : Env) (s : St) : R SVal :=
            (match o.res with
             | .ok v => .ok (.val v) { stack := rest, log := o.log }
             | .error a => .ok (.val (.err a.kind)) { stack := rest, log := o.log })
-         | none => .ok (.val (.err .binding)) { s with stack := rest })
+         | none => .ok (.val (.err .binding)) { stack := rest, log := markUnres env s.log })
   | x :: rest => .ok x { s with stack := rest }
 
 /-- `pop()?.into_value()?` -/
@@ -482,14 +510,15 @@ def step (recTop : Rec) (env : Env) (len : Nat) (i : Instr) (pc : Nat) (s : St) 
              | none =>
                match env.callable B name with
                | some c => .ok pc { s2 with stack := .bound c obj :: s2.stack }
-               | none => .ok pc (pushV (.err .attribute) s2))
+               | none => .ok pc (pushV (.err .attribute) { s2 with log := markUnres env s2.log }))
           | _ =>
             if !env.hasBinds then .fail (.err .runtime) s2.log else
             match env.callable B name with
             | some c => .ok pc { s2 with stack := .bound c obj :: s2.stack }
             | none =>
               -- a failed operand stays the failure it is (it is not a missing field)
-              if obj.isErr then .ok pc (pushV obj s2) else .ok pc (pushV (.err .attribute) s2))
+              if obj.isErr then .ok pc (pushV obj s2)
+              else .ok pc (pushV (.err .attribute) { s2 with log := markUnres env s2.log }))
      | .ok (.val _) s1 =>
        (match popV rec env s1 with
         | .fail a l => .fail a l
@@ -516,12 +545,12 @@ def step (recTop : Rec) (env : Env) (len : Nat) (i : Instr) (pc : Nat) (s : St) 
                    (match resolveArgs rec env args s2.log with
                     | .error (a, l) => .ok pc (pushV (.err a.kind) { s2 with log := l })
                     | .ok (vs, l) => .ok pc (pushV (B.ctor tn vs) { s2 with log := l }))
-                 | _ => .ok pc (pushV (.err .runtime) s2))
+                 | _ => .ok pc (pushV (.err .runtime) { s2 with log := markUnres env s2.log }))  -- "… is not callable"
           | .type tn =>
             (match resolveArgs rec env args s2.log with
              | .error (a, l) => .ok pc (pushV (.err a.kind) { s2 with log := l })
              | .ok (vs, l) => .ok pc (pushV (B.ctor tn vs) { s2 with log := l }))
-          | _ => .ok pc (pushV (.err .runtime) s2)))
+          | _ => .ok pc (pushV (.err .runtime) s2)))  -- "… cannot be called": no name involved, no flag
   | .fmt n =>
     (match popN rec env n s with
      | .fail a l => .fail a l
